@@ -83,10 +83,6 @@ Definition out := list output.
    Watchdog.wd_check. *)
 Section Control.
 Variables (add zmax : Z -> Z -> Z) (leb : Z -> Z -> bool) (wdc : Z -> Z -> Z -> Z -> wd_res).
-Declare Scope ctl_scope.
-Local Notation "a + b" := (add a b) : ctl_scope.
-Local Notation "a <=? b" := (leb a b) : ctl_scope.
-Local Open Scope ctl_scope.
 
 Definition applies (c : recon_cond) (exc : bool) : bool :=
   match c with RcOnExc => exc | RcAlways => true | RcNever => false end.
@@ -164,7 +160,7 @@ Definition do_stop (fl : flavour) (s : st) : st * out :=
   (set_stopped s2 true, o).
 
 (* AsyncTCPGateway.check_connection at time [now s] *)
-Definition arm (p : params) (s : st) : st := set_timer s (Some (now s + p_rt p + p_slack p)).
+Definition arm (p : params) (s : st) : st := set_timer s (Some (add (add (now s) (p_rt p)) (p_slack p))).
 
 Definition atcp_check (fl : flavour) (p : params) (s : st) : st * out :=
   match wdc (p_rt p) (check s) (disc s) (now s) with
@@ -211,7 +207,7 @@ Definition attempt_fail (fl : flavour) (p : params) (s : st) : st * out :=
   match ct s with
   | CDialing =>
       match fail_of fl with
-      | FailSleepRetry => (set_ct s (CSleeping (now s + p_rt p)), [Sleep (p_rt p)])
+      | FailSleepRetry => (set_ct s (CSleeping (add (now s) (p_rt p))), [Sleep (p_rt p)])
       | FailRetryNow => start_dial fl s
       | FailGiveUp => (set_ct s CIdle, [])
       end
@@ -219,19 +215,19 @@ Definition attempt_fail (fl : flavour) (p : params) (s : st) : st * out :=
   end.
 
 Definition tick (fl : flavour) (p : params) (s : st) (dt : Z) : st * out :=
-  if dt <=? 0 then (s, []) else
+  if leb dt 0 then (s, []) else
   match ct s with
   | CDialing => (s, [])
   | CSleeping u =>
-      if u <=? now s + dt then start_dial fl (set_now s (zmax u (now s)))
-      else (set_now s (now s + dt), [])
+      if leb u (add (now s) dt) then start_dial fl (set_now s (zmax u (now s)))
+      else (set_now s (add (now s) dt), [])
   | CIdle =>
       match timer s with
       | Some w =>
-          if w <=? now s + dt then atcp_check fl p (set_timer (set_now s (zmax w (now s))) None)
-          else (set_now s (now s + dt), [])
+          if leb w (add (now s) dt) then atcp_check fl p (set_timer (set_now s (zmax w (now s))) None)
+          else (set_now s (add (now s) dt), [])
       | None =>
-          let s1 := set_now s (now s + dt) in
+          let s1 := set_now s (add (now s) dt) in
           match fl with
           | SyncTcp => if conn s then reader_iter fl p s1 false false else (s1, [])
           | _ => (s1, [])
